@@ -37,6 +37,22 @@ func Open(path string) (*FreeList, error) {
 	if err != nil {
 		return nil, err
 	}
+	// Entries have a fixed size. If the process died while entries were being
+	// written, then the file can end in part of an entry. Cut that off,
+	// otherwise all entries appended after it are read out of alignment, as
+	// arbitrary offsets and sizes.
+	fi, err := file.Stat()
+	if err != nil {
+		file.Close()
+		return nil, err
+	}
+	const entrySize = types.OffBytesLen + types.SizeBytesLen
+	if extra := fi.Size() % entrySize; extra != 0 {
+		if err = file.Truncate(fi.Size() - extra); err != nil {
+			file.Close()
+			return nil, err
+		}
+	}
 	return &FreeList{
 		file:      file,
 		writer:    bufio.NewWriterSize(file, blockBufferSize),
